@@ -368,7 +368,7 @@ func (fr *Frame) builtinAppend(ins ssa.Instruction, c *ssa.CallCommon, args []Va
 		} else {
 			tRow := Select(h, tArr)
 			inPlace = copyRange(st, sRow, tRow, Add(sOff, sLen), tOff, tLen, "approw")
-			zero := ConstArr(sRow.sort, flatten(zeroVal(leafType(l)))[0])
+			zero := ConstArr(sRow.sort, zeroOfSort(l.sort))
 			f1 := copyRange(st, zero, sRow, IntLit(0), sOff, sLen, "approw")
 			fresh = copyRange(st, f1, tRow, sLen, tOff, tLen, "approw")
 		}
